@@ -181,4 +181,18 @@ var specs = []CheckSpec{
 		Assumptions: append([]string{"linearizability across goroutines and processes is by assume-guarantee: C06 gives exclusion of writers and sharing among readers; this check establishes that each operation, run alone under its lock, reads or publishes exactly the complete contents and that every content access lies inside the held interval (asserted in C06's API harness); the two-phase-locking composition argument is stated, not mechanised"}, commonAssumptions...),
 		Outside:     []string{"two simultaneous faults (rollback is best-effort)", "durability across power loss", "a failing Close after a successful write (not a write step: the new contents are published and the error is returned)"},
 	},
+	{
+		ID: "C15", Pkg: "txtar",
+		Harnesses: []HarnessSpec{
+			{Fn: "VerifC15Write", Quick: map[string]int{"E": 1, "NL": 6}, Thorough: map[string]int{"E": 1, "NL": 8}, Witness: []string{"created", "written", "escaping-name"}},
+			{Fn: "VerifC15WriteTwo", Quick: map[string]int{"E": 2, "NL": 3}, Thorough: map[string]int{"E": 2, "NL": 4}, Witness: []string{"created", "written", "escaping-name"}},
+		},
+		Bounds: map[string]string{
+			"quick":    "txtar.Write of one entry whose name is any byte string of <= 6 bytes, and of two entries with names of <= 3 bytes, data of <= 1 symbolic byte, into an existing directory holding no file / a / a/b / b plus a file outside it",
+			"thorough": "names <= 8 bytes (one entry), <= 4 bytes (two entries)",
+		},
+		Stubs: []string{"os.MkdirAll, os.OpenFile (O_CREATE|O_EXCL semantics), (*os.File).{Write,Close} on the vfs model"},
+		Assumptions: append([]string{"the target directory exists and is a directory (the property quantifies over directories with pre-existing files); O_EXCL on an existing path fails", "lexical containment: no symbolic links in the model"}, commonAssumptions...),
+		Outside:     []string{"the txtar-c / txtar-x directory-tree round trip (needs a directory-walk model that was not built)", "symbolic links inside the target directory", "a target directory that does not exist"},
+	},
 }
